@@ -2,7 +2,7 @@
 """Regenerates /verif/MANIFEST.json from the table below (kept in sync with checker/internal/props)."""
 import json, re, subprocess, os
 
-FIX_COMMITS = ["7de88560c5", "5379f6c8d1", "4b4b809cc2", "a6f4203039", "d8a222be03"]
+FIX_COMMITS = ["7de88560c5", "5379f6c8d1", "4b4b809cc2", "a6f4203039", "d8a222be03", "a6b392129b"]
 CLAIMED = {
  # id: (design_ref, claim text, not covered / trusted base, technique)
  "C06": ("5/C06",
@@ -50,6 +50,11 @@ CLAIMED["C20"] = ("5/C20",
    "Interprocedural guard propagation (rule GI) over the workspace call graph: for all 37 message handlers of concentrated-liquidity, lockup, superfluid, tokenfactory and valset-pref (signer field read from each message's GetSigners), every bounded-depth call path to a privileged sink (lock, position and denom mutators) carries a branch that compares a signer-identity value with the stored object's owner/admin and fails on mismatch — directly, via a checked guard helper, inside the sink on all success paths, or modulo the governance-module equality — with three creation/own-index exemptions listed with side conditions.",
    "Not covered: 'all balances and records unchanged' on failure (SDK transaction atomicity trusted), object reachability over histories, wasm hooks. Bounds: call depth 7, helper depth 3; class-hierarchy resolution of interface calls.",
    "call-graph obligation propagation with SSA guard facts (actor-identity / owner-like term classification)")
+
+CLAIMED["C03"] = ("5/C03",
+   "Direction inference (abstract interpretation over {EXACT,GE,LE,ANY} with in-place *Mut object updates) proves each of the four next-sqrt-price functions returns a value on its documented side of the exact formula; rounding-class region rules prove CalcAmount0/1Delta use only round-up operations under roundUp and only truncations otherwise; per swap step in all four strategy functions amount-in is computed with roundUp=true and DecRoundUp, amount-out with roundUp=false and Dec(), the fee by round-up multiplication or exact remainder, with the matching price function; estimates run the same compute function with the same arguments on a never-written cache context; the progress/overshoot/no-progress/overcharge guards precede the loop's state updates; totals ceil amount-in and truncate amount-out.",
+   "Not covered: distance from the exact rational curve, value equality of estimate and execution, round-trip inequality, 18/36-digit regimes (numeric). Assumes positive operands in the direction inference. Trusted: C12's rounding classes, go/ssa.",
+   "direction-lattice abstract interpretation + rounding-class dataflow + SSA guard/order/cache-context rules")
 
 NOT_YET = "check not built yet in this revision (static rule set under construction; see DESIGN.md section 5)"
 
